@@ -222,8 +222,9 @@ fn get_intervals<'a>(context: &CheckerContext, tour: &'a Tour) -> Vec<Vec<(usize
         .fold(Vec::<(usize, usize)>::default(), |mut acc, (idx, (_, to))| {
             let last_idx = legs.len() - 1;
             if is_reload_stop(context, to) || *idx == last_idx {
-                let start_idx = acc.last().map_or(0_usize, |item| item.1 + 2);
-                let end_idx = if *idx == last_idx { last_idx } else { *idx - 1 };
+                // NOTE: end index is exclusive as an interval has no legs when reload is the next stop
+                let start_idx = acc.last().map_or(0_usize, |item| item.1 + 1);
+                let end_idx = if *idx == last_idx { last_idx + 1 } else { *idx };
 
                 acc.push((start_idx, end_idx));
             }
@@ -231,9 +232,7 @@ fn get_intervals<'a>(context: &CheckerContext, tour: &'a Tour) -> Vec<Vec<(usize
             acc
         })
         .into_iter()
-        .map(|(start_idx, end_idx)| {
-            legs.iter().cloned().skip(start_idx).take(end_idx - start_idx + 1).collect::<Vec<_>>()
-        })
+        .map(|(start_idx, end_idx)| legs.iter().cloned().skip(start_idx).take(end_idx - start_idx).collect::<Vec<_>>())
         .collect()
 }
 
